@@ -93,9 +93,12 @@ P = {
          "a machine's pre-buffer has its first not-done operation there (C07_delivered_to_the_machine_of_the_next_operation_*, clause "
          "pre_ok_b, SMP/Deliver.v); stored time dependencies are well-formed (C07_time_dependencies_wellformed_*, clause depi_b). " + TIE),
  "C08": ("SM", "Theorems (Props/C08.v): capacity_b (no buffer above its capacity) in every reachable state and micro-state (from WFS); "
-         "insertion at the back and release-by-discipline are post-state theorems in SMP/Post (post_to_transit: an ordered buffer "
-         "releases only the position its discipline allows, otherwise the AGV keeps waiting) and extracted event monitors "
-         "(ev_pre_release, ev_transit_release, ev_stores) on every applied transition. " + TIE),
+         "insertion at the back is a post-state theorem (SMP/Post); discipline order: every applied -> TRANSIT either keeps the AGV waiting "
+         "or takes the job at the release position (C08_agv_takes_only_the_released_job); a machine start created by the simulator "
+         "names the job at the release position of the pre-buffer, no transition of another machine touches that pre-buffer, and "
+         "the agent is offered machine starts only from unordered pre-buffers (C08_created_machine_start_names_the_released_job, "
+         "C08_pre_buffer_untouched_by_other_machines, C08_offered_machine_start_only_for_unordered_pre_buffer; SMP/Release.v); "
+         "extracted event monitors (ev_pre_release, ev_transit_release, ev_stores) on every applied transition. " + TIE),
  "C09": ("SM", "Theorems (Props/C09.v): IDLE->SETUP reads matrix[(mounted tool, new tool)], stamps now + that value, mounts the new tool, "
          "moves the job in; offers only name idle machines; WORKING starts no earlier than the setup end (clock invariant); tool frame; "
          "over whole runs of every instance (SMP/Setup.v): in every state and micro-state "
